@@ -325,6 +325,17 @@ def check_M3(ctx, facts):
                 good2 = body.must_pass([ab], [ib], rets) if ab != ib else True
                 ctx.ob('C16.M3', '%s|%s|every-path' % (name, f), good2, site(body, it['cs']),
                        'the `%s` loop runs on every path through the membership arm' % f if good2 else 'the `%s` list can be skipped' % f)
+    # the two hand-over points cannot drop an event
+    for hname in ('replication::distributor::TaskDistributor::membership_change', 'replication::poller::ReplicationHandle::membership_change'):
+        hb_ = facts.body('datacake_eventual_consistency::' + hname)
+        if hb_ is None:
+            ctx.bad('C16.M3', 'handover|' + hname.split('::')[-2], '', hname + ' not found')
+            continue
+        lossy = lossy_sends(hb_)
+        sends = [cname(t) for _b, t in hb_.calls() if cname(t) and re.match(r'^(flume|crossbeam_channel|tokio::sync::mpsc)', cname(t)) and 'send' in last_seg(cname(t))]
+        ctx.ob('C16.M3', 'handover|' + hname.split('::')[-2], bool(sends) and not lossy, site(hb_),
+               'membership events are handed over with %s' % sorted(set(sends)) if sends and not lossy else
+               'membership events can be dropped at the hand-over (%s)' % (lossy or 'no channel send'))
     # forwarder: both services get every event
     fw = [b for b in facts.bodies.values() if b.crate == 'datacake_eventual_consistency' and b.kind == 'coroutine'
           and b.name.startswith('datacake_eventual_consistency::watch_membership_changes')]
